@@ -181,7 +181,14 @@ func SafeDiv[T Integer](x T, y T) (T, error) {
 		return 0, ierrors.WithMessagef(ErrIntegerDivisionByZero, "%d / %d", x, y)
 	}
 
-	return x / y, nil
+	result := x / y
+
+	// MinInt / -1 is the only quotient that is not representable: it wraps around to MinInt.
+	if x < 0 && y < 0 && result < 0 {
+		return 0, ierrors.WithMessagef(ErrIntegerOverflow, "%d / %d", x, y)
+	}
+
+	return result, nil
 }
 
 func SafeLeftShift[T Integer](val T, shift uint8) (T, error) {
